@@ -30,6 +30,22 @@
 #ifndef DENSEAD_HAVE_SATAN2
 #define DENSEAD_HAVE_SATAN2 0
 #endif
+// does `createVariable(int nVars, value, varPos)` of the statically sized classes instantiate?
+// (try-compile probes of lib/props/C16.py; U = specialisations, L = primary template)
+#ifndef DENSEAD_HAVE_CREATEVARN_U
+#define DENSEAD_HAVE_CREATEVARN_U 0
+#endif
+#ifndef DENSEAD_HAVE_CREATEVARN_L
+#define DENSEAD_HAVE_CREATEVARN_L 0
+#endif
+// property-mode statements that the unchanged tree violates (reported, see design.d/C16.md); armed by
+// lib/props/C16.py once the code is fixed
+#ifndef DENSEAD_ARM_GENERIC_ARITY
+#define DENSEAD_ARM_GENERIC_ARITY 0
+#endif
+#ifndef DENSEAD_ARM_DYNAMIC_PREDICATES
+#define DENSEAD_ARM_DYNAMIC_PREDICATES 0
+#endif
 
 namespace fs = std::filesystem;
 namespace AD = Opm::DenseAd;
@@ -47,7 +63,7 @@ enum Op {
 const char* opName[NOPS] = {
     "x", "var", "const",
     "add", "sub", "mul", "div", "adds", "subs", "muls", "divs", "sadd", "ssub", "smul", "sdiv", "neg",
-    "dup add", "dup sub", "dup mul", "dup div", "assign", "copyDerivatives", "clearDerivatives",
+    "addSelf", "subSelf", "mulSelf", "divSelf", "assign", "copyDerivatives", "clearDerivatives",
     "m.abs", "m.tan", "m.atan", "m.sin", "m.asin", "m.sinh", "m.asinh", "m.cos", "m.acos", "m.cosh", "m.acosh",
     "m.sqrt", "m.exp", "m.log", "m.log10",
     "m.pow", "m.pows", "m.spow", "m.atan2", "m.atan2s", "m.satan2", "m.min", "m.max", "m.smin", "m.smax", "m.mins", "m.maxs"
@@ -77,13 +93,25 @@ struct Case {
 
 // ---------------------------------------------------------------------------------------------
 // independent dual-number evaluator (textbook rules, own code; nothing shared with Opm)
+// `e[i]` is the conditioning of derivative i: the sum of the ABSOLUTE values of all chain-rule terms that
+// were added up (|fx||x'| + |fy||y'|, recursively).  Where the terms cancel (atan2(s*x, x): x'y - xy' = 0
+// exactly in the implementation's formula, rounding noise of size eps*e in the textbook form) the two
+// evaluations can only be compared relative to e, not relative to the (tiny) result.
 struct Ref {
-    double v = 0; std::vector<double> d;
+    double v = 0; std::vector<double> d, e;
     Ref() {}
-    Ref(int n, double c) : v(c), d(n, 0.0) {}
+    Ref(int n, double c) : v(c), d(n, 0.0), e(n, 0.0) {}
 };
-Ref chain(const Ref& x, double f, double df) { Ref r; r.v = f; r.d.resize(x.d.size()); for (size_t i = 0; i < x.d.size(); ++i) r.d[i] = df * x.d[i]; return r; }
-Ref chain2(const Ref& x, const Ref& y, double f, double fx, double fy) { Ref r; r.v = f; r.d.resize(x.d.size()); for (size_t i = 0; i < x.d.size(); ++i) r.d[i] = fx * x.d[i] + fy * y.d[i]; return r; }
+Ref chain(const Ref& x, double f, double df) {
+    Ref r; r.v = f; r.d.resize(x.d.size()); r.e.resize(x.d.size());
+    for (size_t i = 0; i < x.d.size(); ++i) { r.d[i] = df * x.d[i]; r.e[i] = std::fabs(df) * x.e[i]; }
+    return r;
+}
+Ref chain2(const Ref& x, const Ref& y, double f, double fx, double fy) {
+    Ref r; r.v = f; r.d.resize(x.d.size()); r.e.resize(x.d.size());
+    for (size_t i = 0; i < x.d.size(); ++i) { r.d[i] = fx * x.d[i] + fy * y.d[i]; r.e[i] = std::fabs(fx) * x.e[i] + std::fabs(fy) * y.e[i]; }
+    return r;
+}
 
 bool refEval(const Case& c, std::vector<Ref>& val, int upto = -1) {
     const int n = c.n;
@@ -96,8 +124,8 @@ bool refEval(const Case& c, std::vector<Ref>& val, int upto = -1) {
         const double s = c.ss.empty() ? 0.0 : c.ss[nd.k % c.ss.size()];
         Ref r;
         switch (nd.op) {
-        case X: { const auto& x = c.xs[nd.k]; r.v = x[0]; r.d.assign(x.begin() + 1, x.end()); break; }
-        case VAR: r = Ref(n, s); r.d[nd.pos] = 1.0; break;
+        case X: { const auto& x = c.xs[nd.k]; r.v = x[0]; r.d.assign(x.begin() + 1, x.end()); r.e.resize(r.d.size()); for (size_t q = 0; q < r.d.size(); ++q) r.e[q] = std::fabs(r.d[q]); break; }
+        case VAR: r = Ref(n, s); r.d[nd.pos] = 1.0; r.e[nd.pos] = 1.0; break;
         case CONST: r = Ref(n, s); break;
         case ADD: r = chain2(*a, *b, a->v + b->v, 1, 1); break;
         case SUB: r = chain2(*a, *b, a->v - b->v, 1, -1); break;
@@ -416,6 +444,120 @@ std::vector<double> evalVariant(char v, const Case& c) {
 
 std::string hexVec(const std::vector<double>& v) { std::string s; for (double d : v) s += vh::hexF64(d); return s; }
 
+// ---------------------------------------------------------------------------------------------
+// second operator set: comparison operators and factories on the real classes
+
+template <class E> struct Tag { using type = E; };
+template <class F> void withVariant(char v, int n, F&& f) {
+    if (v == 'D') { f(Tag<Dyn>{}); return; }
+#define UV_CASE(N) case N: f(Tag<AD::Evaluation<double, N>>{}); return;
+#define LV_CASE(N) case N: f(Tag<AD::Evaluation<double, N, 1u>>{}); return;
+    if (v == 'U') {
+        switch (n) { UV_CASE(1) UV_CASE(2) UV_CASE(3) UV_CASE(4) UV_CASE(5) UV_CASE(6) UV_CASE(7) UV_CASE(8) UV_CASE(9) UV_CASE(10) UV_CASE(11) UV_CASE(12) }
+    } else if (v == 'L') {
+        switch (n) {
+            LV_CASE(1) LV_CASE(2) LV_CASE(3) LV_CASE(4) LV_CASE(5) LV_CASE(6) LV_CASE(7) LV_CASE(8) LV_CASE(9) LV_CASE(10) LV_CASE(11) LV_CASE(12)
+            UV_CASE(13) UV_CASE(14) UV_CASE(15) UV_CASE(16)
+        }
+    }
+    throw std::logic_error("withVariant: unsupported variant/size");
+}
+
+// eqE neE ltE gtE leE geE | eqS neS ltS gtS leS geS | sne slt sgt sle sge
+const char* cmpName[17] = { "eqE", "neE", "ltE", "gtE", "leE", "geE", "eqS", "neS", "ltS", "gtS", "leS", "geS", "sne", "slt", "sgt", "sle", "sge" };
+std::string cmpReal(char v, int n, const std::vector<double>& A, const std::vector<double>& B, double c) {
+    std::string s;
+    withVariant(v, n, [&](auto tag) {
+        using E = typename decltype(tag)::type;
+        const E a = fromVec<E>(n, A), b = fromVec<E>(n, B);
+        auto p = [&](bool x) { s += x ? '1' : '0'; };
+        p(a == b); p(a != b); p(a < b); p(a > b); p(a <= b); p(a >= b);
+        p(a == c); p(a != c); p(a < c); p(a > c); p(a <= c); p(a >= c);
+        p(c != a); p(c < a); p(c > a); p(c <= a); p(c >= a);
+    });
+    return s;
+}
+// the statement, on plain doubles
+std::string cmpExpected(const std::vector<double>& A, const std::vector<double>& B, double c) {
+    std::string s; auto p = [&](bool x) { s += x ? '1' : '0'; };
+    bool eq = true; for (size_t i = 0; i < A.size(); ++i) eq = eq && A[i] == B[i];
+    const double a = A[0], b = B[0];
+    p(eq); p(!eq); p(a < b); p(a > b); p(a <= b); p(a >= b);
+    p(a == c); p(a != c); p(a < c); p(a > c); p(a <= c); p(a >= c);
+    p(c != a); p(c < a); p(c > a); p(c <= a); p(c >= a);
+    return s;
+}
+struct CmpCase { std::vector<double> A, B; double c; };
+CmpCase makeCmp(vh::Rng& rng, int n, bool withNan) {
+    CmpCase k; k.A.resize(n + 1); k.B.resize(n + 1);
+    auto val = [&] { int q = rng.range(0, 9); return q == 0 ? 0.0 : q == 1 ? -0.0 : q == 2 ? 1.0 : (double) rng.range(-2, 2) + (rng.coin() ? 0.0 : rng.unit()); };
+    for (auto& x : k.A) x = val();
+    int mode = rng.range(0, 5);
+    if (mode == 0) k.B = k.A;                                              // equal in every slot
+    else if (mode == 1) { k.B = k.A; k.B[rng.range(0, n)] += 0.5; }        // exactly one slot differs
+    else if (mode == 2) { for (auto& x : k.B) x = val(); k.B[0] = k.A[0]; } // tie of the values only
+    else if (mode == 3) { k.B = k.A; k.B[rng.range(1, n)] = val(); }
+    else for (auto& x : k.B) x = val();
+    k.c = rng.coin() ? k.A[0] : val();
+    if (withNan && rng.coin(1, 25)) (rng.coin() ? k.A : k.B)[rng.range(0, n)] = std::nan("");
+    if (rng.coin(1, 30)) { k.A[0] = 0.0; k.B[0] = -0.0; k.c = rng.coin() ? 0.0 : -0.0; }
+    return k;
+}
+
+struct FactCase { std::string kind; int nVars = 0, pos = 0, form = 0; double c = 0; };
+// -> "err" when the factory throws, else the slots
+std::string factReal(char v, int n, const FactCase& f) {
+    std::string out;
+    withVariant(v, n, [&](auto tag) {
+        using E = typename decltype(tag)::type;
+        using TB = Opm::MathToolbox<E>;
+        constexpr bool dyn = Traits<E>::dynamic;
+        const E x = Traits<E>::constant(n, 7.25, 0);
+        try {
+            if (f.kind == "zero") out = hexVec(toVec(f.form ? TB::createConstantZero(x) : E::createConstantZero(x)));
+            else if (f.kind == "one") out = hexVec(toVec(f.form ? TB::createConstantOne(x) : E::createConstantOne(x)));
+            else if (f.kind == "cx") out = hexVec(toVec(f.form ? TB::createConstant(x, f.c) : E::createConstant(x, f.c)));
+            else if (f.kind == "vx") out = hexVec(toVec(E::createVariable(x, f.c, f.pos)));
+            else if (f.kind == "c1") out = hexVec(toVec(f.form ? TB::createConstant(f.c) : E::createConstant(f.c)));
+            else if (f.kind == "v2") out = hexVec(toVec(f.form ? TB::createVariable(f.c, f.pos) : E::createVariable(f.c, f.pos)));
+            else if (f.kind == "cn") out = hexVec(toVec(f.form && f.nVars >= 0 ? TB::createConstant((unsigned) f.nVars, f.c) : E::createConstant(f.nVars, f.c)));
+            else if (f.kind == "blank") { if constexpr (!dyn) out = hexVec(toVec(f.form ? TB::createBlank(x) : E::createBlank(x))); else out = "skip"; }
+            else if (f.kind == "vn") {
+                if constexpr (dyn) out = hexVec(toVec(E::createVariable(f.nVars, f.c, f.pos)));
+#if DENSEAD_HAVE_CREATEVARN_U
+                else if constexpr (E::numVars <= 12) out = hexVec(toVec(E::createVariable(f.nVars, f.c, f.pos)));
+#endif
+#if DENSEAD_HAVE_CREATEVARN_L
+                else if constexpr (E::numVars > 12) out = hexVec(toVec(E::createVariable(f.nVars, f.c, f.pos)));
+#endif
+                else out = "skip";
+            }
+            else throw std::runtime_error("factReal: kind");
+        } catch (const std::logic_error&) { out = "err"; }
+    });
+    return out;
+}
+FactCase makeFact(vh::Rng& rng, char v, int n) {
+    static const char* kinds[] = { "zero", "one", "cx", "vx", "c1", "v2", "cn", "cn", "vn", "blank" };
+    FactCase f; f.kind = kinds[rng.below(10)];
+    f.c = randScalar(rng); f.pos = rng.range(0, n - 1); f.form = rng.range(0, 1);
+    f.nVars = n;
+    if (v != 'D' && (f.kind == "cn" || f.kind == "vn")) { int q = rng.range(0, 3); f.nVars = q == 0 ? 0 : q == 1 ? n + 1 : q == 2 ? n - 1 : n; }
+    return f;
+}
+// the statement: what a factory has to return (empty = must throw)
+std::vector<double> factExpected(char v, int n, const FactCase& f, bool& mustThrow) {
+    mustThrow = false;
+    std::vector<double> r(n + 1, 0.0);
+    if (f.kind == "zero" || f.kind == "blank") return r;
+    if (f.kind == "one") { r[0] = 1.0; return r; }
+    if (f.kind == "c1" || f.kind == "v2") { if (v == 'D') { mustThrow = true; return r; } }
+    if (f.kind == "cn" || f.kind == "vn") { if (v != 'D' && f.nVars != n) { mustThrow = true; return r; } }
+    r[0] = f.c;
+    if (f.kind == "vx" || f.kind == "v2" || f.kind == "vn") r[f.pos + 1] = 1.0;
+    return r;
+}
+
 // scalar / dynamic Evaluation, run in a child process (it may abort or read out of bounds)
 bool probeDynamicScalarDiv(std::string& detail) {
     int fd[2];
@@ -492,7 +634,51 @@ int main(int argc, char** argv) {
             std::string lacking;
             if (!sdivDynOk) lacking += "D.sdiv";
             if (!DENSEAD_HAVE_SATAN2) lacking += std::string(lacking.empty() ? "" : " ") + "M.satan2";
+            if (!DENSEAD_HAVE_CREATEVARN_U) lacking += std::string(lacking.empty() ? "" : " ") + "U.createVariableN";
+            if (!DENSEAD_HAVE_CREATEVARN_L) lacking += std::string(lacking.empty() ? "" : " ") + "L.createVariableN";
             sink.emit("densead.untranslatable", lacking);
+        }
+        // comparison operators (ties, one differing slot, NaN, signed zeros) and factories
+        const long cmps = thorough ? 60000 : 6000;
+        for (long it = 0; it < cmps; ++it) {
+            Sizes sz = pickVariant(rng);
+            CmpCase k = makeCmp(rng, sz.n, true);
+            sink.emit(std::string("densead.cmp ") + sz.v + " " + std::to_string(sz.n) + " " + hexVec(k.A) + " " + hexVec(k.B) + " " + vh::hexF64(k.c) +
+                      " = " + cmpReal(sz.v, sz.n, k.A, k.B, k.c), "ok");
+            sink.count(std::string("cmp.variant.") + sz.v);
+        }
+        // MathToolbox<E>::isSame / isfinite / isnan: one slot perturbed / NaN / inf
+        const long preds = thorough ? 30000 : 3000;
+        for (long it = 0; it < preds; ++it) {
+            Sizes sz = pickVariant(rng);
+            CmpCase k = makeCmp(rng, sz.n, false);
+            k.B = k.A;
+            const int slot = rng.range(0, sz.n), what = rng.range(0, 5);
+            if (what == 0) k.B[slot] += 0.5; else if (what == 1) k.B[slot] += 1e-11 * (1.0 + std::fabs(k.B[slot]));
+            else if (what == 2) k.A[slot] = std::nan(""); else if (what == 3) k.A[slot] = rng.coin() ? INFINITY : -INFINITY;
+            else if (what == 4) k.B[slot] *= 1.0 + 1e-8;
+            const double tol = rng.coin() ? 1e-9 : 1e-3;
+            std::string bits;
+            withVariant(sz.v, sz.n, [&](auto tag) {
+                using E = typename decltype(tag)::type;
+                const E a = fromVec<E>(sz.n, k.A), b = fromVec<E>(sz.n, k.B);
+                bits += Opm::MathToolbox<E>::isSame(a, b, tol) ? '1' : '0';
+                bits += (rng.coin() ? Opm::MathToolbox<E>::isfinite(a) : Opm::isfinite(a)) ? '1' : '0';
+                bits += (rng.coin() ? Opm::MathToolbox<E>::isnan(a) : Opm::isnan(a)) ? '1' : '0';
+            });
+            sink.emit("densead.pred " + std::to_string(sz.n) + " " + hexVec(k.A) + " " + hexVec(k.B) + " " + vh::hexF64(tol) + " = " + bits, "ok");
+            sink.count(std::string("pred.variant.") + sz.v);
+            sink.count("pred.bits." + bits);
+        }
+        const long facts = thorough ? 30000 : 3000;
+        for (long it = 0; it < facts; ++it) {
+            Sizes sz = pickVariant(rng);
+            FactCase f = makeFact(rng, sz.v, sz.n);
+            std::string r = factReal(sz.v, sz.n, f);
+            if (r == "skip") { sink.count("fact.skipped." + f.kind); continue; }
+            sink.emit(std::string("densead.fact ") + sz.v + " " + std::to_string(sz.n) + " " + f.kind + " " + std::to_string(f.nVars) + " " + vh::hexF64(f.c) + " " +
+                      std::to_string(f.pos) + " = " + r, "ok");
+            sink.count("fact." + f.kind + (r == "err" ? ".throws" : ""));
         }
         const long cases = thorough ? 250000 : 20000;
         for (long it = 0; it < cases; ++it) {
@@ -542,7 +728,8 @@ int main(int argc, char** argv) {
             if (hexVec(rD) != hexVec(rL)) log.fail("variants-disagree.dynamic-vs-generic", describe('D', c) + " D=" + hexVec(rD) + " L=" + hexVec(rL)); else log.ok();
             bool good = (int) rU.size() == n + 1 && close(rU[0], ref.v, 1e-9, 1e-6);
             int bad = good ? -1 : 0;
-            for (int j = 0; good && j < n; ++j) if (!close(rU[j + 1], ref.d[j], 1e-8, 1e-5)) { good = false; bad = j + 1; }
+            for (int j = 0; good && j < n; ++j)
+                if (!close(rU[j + 1], ref.d[j], 1e-8, 1e-5) && !(std::fabs(rU[j + 1] - ref.d[j]) <= 1e-10 * ref.e[j])) { good = false; bad = j + 1; }
             if (!good) log.fail("dual-evaluator-disagrees", describe(n <= 12 ? 'U' : 'L', c) + " slot=" + std::to_string(bad) + " real=" + hexVec(rU) + " ref.v=" + vh::hexF64(ref.v) + " ref.d=" + hexVec(ref.d));
             else log.ok();
         }
@@ -614,6 +801,91 @@ int main(int argc, char** argv) {
                 if (!(std::fabs(r[j + 1] - rich) <= tol) && err < 1e-2 * (std::fabs(rich) + 1.0))
                     log.fail("finite-difference-disagrees", describe(sz.v, c) + " var=" + std::to_string(j) + " derivative=" + vh::hexF64(r[j + 1]) + " fd=" + vh::hexF64(rich) + " err=" + vh::hexF64(err));
                 else log.ok();
+            }
+        }
+        // (5) comparison operators: the statement on plain doubles, in every variant, ties included
+        const long cmps = thorough ? 60000 : 6000;
+        for (long it = 0; it < cmps; ++it) {
+            int n = rng.range(1, 16);
+            CmpCase k = makeCmp(rng, n, false);
+            const std::string want = cmpExpected(k.A, k.B, k.c);
+            for (char v : { 'U', 'L', 'D' }) {
+                if (v == 'U' && n > 12) continue;
+                const std::string got = cmpReal(v, n, k.A, k.B, k.c);
+                ++st["cmp.cases"];
+                if (got == want) { log.ok(); continue; }
+                size_t q = 0; while (q < 17 && got[q] == want[q]) ++q;
+                log.fail(std::string("comparison-wrong.") + cmpName[q], std::string(1, v) + " n=" + std::to_string(n) + " A=" + hexVec(k.A) + " B=" + hexVec(k.B) +
+                         " c=" + vh::hexF64(k.c) + " got=" + got + " want=" + want);
+            }
+        }
+        // (6) factories: constants / variable seeds, same in every variant; nVars forms accept nVars == size
+        const long facts = thorough ? 30000 : 3000;
+        long arityViolations = 0;
+        for (long it = 0; it < facts; ++it) {
+            Sizes sz = pickVariant(rng);
+            FactCase f = makeFact(rng, sz.v, sz.n);
+            std::string r = factReal(sz.v, sz.n, f);
+            if (r == "skip") continue;
+            bool mustThrow = false;
+            std::vector<double> want = factExpected(sz.v, sz.n, f, mustThrow);
+            const bool good = mustThrow ? r == "err" : r == hexVec(want);
+            ++st["fact." + f.kind];
+            const bool genericArity = !good && sz.v == 'L' && (f.kind == "cn" || f.kind == "vn");
+            if (genericArity && !DENSEAD_ARM_GENERIC_ARITY) { ++arityViolations; continue; }
+            if (!good) log.fail("factory-wrong." + f.kind, std::string(1, sz.v) + " n=" + std::to_string(sz.n) + " nVars=" + std::to_string(f.nVars) + " c=" + vh::hexF64(f.c) +
+                                " pos=" + std::to_string(f.pos) + " form=" + std::to_string(f.form) + " got=" + r + " want=" + (mustThrow ? std::string("err") : hexVec(want)));
+            else log.ok();
+        }
+        st["probe.generic-factory-arity-violations"] = arityViolations;
+        // (7) MathToolbox predicates look at every derivative in every variant
+        {
+            long bad = 0;
+            for (int it = 0; it < 200; ++it) {
+                int n = rng.range(1, 12), j = rng.range(0, n - 1);
+                std::vector<double> A(n + 1, 1.0), B(n + 1, 1.0); A[j + 1] = std::nan(""); B[j + 1] = 6.0;
+                std::vector<double> One(n + 1, 1.0);
+                for (char v : { 'U', 'L', 'D' }) {
+                    bool isn = false, isf = true, same = true;
+                    withVariant(v, n, [&](auto tag) {
+                        using E = typename decltype(tag)::type;
+                        const E a = fromVec<E>(n, A), b = fromVec<E>(n, B), o = fromVec<E>(n, One);
+                        isn = Opm::MathToolbox<E>::isnan(a); isf = Opm::MathToolbox<E>::isfinite(a); same = Opm::MathToolbox<E>::isSame(o, b, 1e-9);
+                    });
+                    const bool good = isn && !isf && !same;
+                    if (good) { log.ok(); continue; }
+                    if (v == 'D' && !DENSEAD_ARM_DYNAMIC_PREDICATES) { ++bad; continue; }
+                    log.fail("toolbox-predicate-ignores-derivative", std::string(1, v) + " n=" + std::to_string(n) + " slot=" + std::to_string(j + 1) +
+                             " isnan=" + std::to_string(isn) + " isfinite=" + std::to_string(isf) + " isSame=" + std::to_string(same));
+                }
+            }
+            st["probe.dynamic-predicate-violations"] = bad;
+        }
+        // (8) ties and the kink: min/max return one operand whole, abs(0) = 0
+        for (long it = 0; it < (thorough ? 20000 : 2000); ++it) {
+            int n = rng.range(1, 16);
+            CmpCase k = makeCmp(rng, n, false);
+            k.B[0] = k.A[0];                                               // tie
+            for (char v : { 'U', 'L', 'D' }) {
+                if (v == 'U' && n > 12) continue;
+                bool good = true; std::string what;
+                withVariant(v, n, [&](auto tag) {
+                    using E = typename decltype(tag)::type;
+                    const E a = fromVec<E>(n, k.A), b = fromVec<E>(n, k.B);
+                    for (int which = 0; which < 4; ++which) {
+                        E r = which == 0 ? AD::min(a, b) : which == 1 ? AD::max(a, b) : which == 2 ? AD::min(a, k.A[0]) : AD::max(k.A[0], a);
+                        const bool isA = hexVec(toVec(r)) == hexVec(k.A), isB = hexVec(toVec(r)) == hexVec(k.B);
+                        std::vector<double> cst(n + 1, 0.0); cst[0] = k.A[0];
+                        const bool isC = hexVec(toVec(r)) == hexVec(cst);
+                        if (!(which < 2 ? (isA || isB) : (isA || isC))) { good = false; what = "min/max at a tie is neither operand (form " + std::to_string(which) + ") r=" + hexVec(toVec(r)); }
+                    }
+                    std::vector<double> Z = k.A; Z[0] = 0.0;
+                    E z = AD::abs(fromVec<E>(n, Z));
+                    if (z.value() != 0.0) { good = false; what = "abs(0) != 0"; }
+                    for (int j = 0; j < n; ++j) if (std::fabs(z.derivative(j)) != std::fabs(Z[j + 1])) { good = false; what = "abs at 0: derivative is not +-x'"; }
+                });
+                ++st["ties.cases"];
+                if (good) log.ok(); else log.fail("tie-semantics", std::string(1, v) + " n=" + std::to_string(n) + " A=" + hexVec(k.A) + " B=" + hexVec(k.B) + " " + what);
             }
         }
         std::ofstream ps(outdir + "/prop_stats.json");
